@@ -477,9 +477,113 @@ func finish(x *explore.X, w *world.World, cl *world.Peer, hops ...*world.Hop) {
 	}
 }
 
+// ---- the allowed time frame over time ---------------------------------------------------------------------------
+
+// local instants (seconds since local Saturday 00:00:00) around every boundary of the frames sat/7-9,
+// sat/22-24, sun/0-1, and around the UTC hour boundaries of zones with :30 / :45 offsets
+var tfInstants = []int{
+	6*3600 + 3599, 7 * 3600, 7*3600 + 1800, 8*3600 + 3599, 9 * 3600, 9*3600 + 899, 9*3600 + 900, 9*3600 + 1799, 9*3600 + 1800,
+	9*3600 + 2699, 9*3600 + 2700, 10 * 3600, 23*3600 + 3599, 24 * 3600, 24*3600 + 3599, 25 * 3600,
+}
+
+var tfZones = []int{0, 5*3600 + 1800, 5*3600 + 2700, -(3*3600 + 1800), 13 * 3600}
+
+// tfAllowed is the reference decision for the frames above, from the documented meaning (weekday and
+// hour of the LOCAL time, hour in [start,end)).
+func tfAllowed(localSec int) bool {
+	day, hour := localSec/86400, (localSec%86400)/3600 // day 0 = Saturday, 1 = Sunday
+	switch day {
+	case 0:
+		return (hour >= 7 && hour < 9) || (hour >= 22 && hour < 24)
+	case 1:
+		return hour >= 0 && hour < 1
+	}
+	return false
+}
+
+// timeFrameScenario: one proxy, requests at an increasing sequence of instants; each must be decided by
+// the instant at which it arrives (earlier decisions must not stick), in every local time zone.
+func timeFrameScenario(x *explore.X, maxLen int) {
+	zone := tfZones[x.ChooseFree("zone", len(tfZones))]
+	var seq []int
+	last := -1
+	for i := 0; i < maxLen; i++ {
+		// the next instant: an index above the previous one, or (after the first) stop
+		n := len(tfInstants) - (last + 1)
+		if i > 0 {
+			n++
+		}
+		if n <= 0 {
+			break
+		}
+		k := x.ChooseFree(fmt.Sprintf("instant-%d", i), n)
+		if i > 0 {
+			if k == 0 {
+				break
+			}
+			k--
+		}
+		last = last + 1 + k
+		seq = append(seq, tfInstants[last])
+	}
+	saved := time.Local
+	time.Local = time.FixedZone("harness", zone)
+	defer func() { time.Local = saved }()
+	w, err := world.Start(world.Options{AllowTimeFrame: []string{"sat/7-9", "sat/22-24", "sun/0-1"}})
+	if err != nil {
+		x.Failf("harness/start", "%v", err)
+		return
+	}
+	okHop, _ := w.Hop("ok.test:80", nil)
+	// the virtual clock starts at 2000-01-01 00:00:00 UTC, a Saturday; requests are placed in the following week
+	epoch := time.Date(2000, 1, 8, 0, 0, 0, 0, time.UTC).Add(-time.Duration(zone) * time.Second) // local Saturday 00:00:00
+	var out []string
+	for _, inst := range seq {
+		at := epoch.Add(time.Duration(inst) * time.Second)
+		if d := time.Until(at); d > 0 {
+			world.Settle(d)
+		}
+		p, err := w.Client()
+		if err != nil {
+			x.Failf("harness/client", "%v", err)
+			return
+		}
+		pre := snap(w)
+		p.Send([]byte("GET http://ok.test/ HTTP/1.1\r\nHost: ok.test\r\n\r\n"))
+		msgs, conns, _ := okHop.Next()
+		for i := range msgs {
+			okHop.Conns[conns[i]].Send([]byte("HTTP/1.1 200 OK\r\nContent-Length: 2\r\n\r\nok"))
+		}
+		rs := httpwire.ParseResponses(p.Recv(), []string{"GET"}, false)
+		what := fmt.Sprintf("zone UTC%+ds, request at local second %d of the week starting Saturday (%02d:%02d:%02d, day %d), sequence %v", zone, inst, (inst%86400)/3600, (inst%3600)/60, inst%60, inst/86400, seq)
+		x.Check()
+		if tfAllowed(inst) {
+			if len(rs.Msgs) != 1 || rs.Msgs[0].Status != 200 || len(msgs) != 1 {
+				st := 0
+				if len(rs.Msgs) == 1 {
+					st = rs.Msgs[0].Status
+				}
+				x.Failf("accepted-but-refused/time-frame", "%s: inside the allowed frame but answered %d (forwarded %d)", what, st, len(msgs))
+			}
+		} else {
+			checkRefused(x, w, pre, rs, 451, controls{timeframe: true, outside: true}, what)
+		}
+		out = append(out, fmt.Sprint(tfAllowed(inst)))
+		p.Close()
+	}
+	x.Outcome(strings.Join(out, ","))
+	if err := w.Stop(); err != nil {
+		x.Failf("shutdown", "%v", err)
+	}
+	okHop.Close()
+	if l := world.Leaks(); l != "" {
+		x.Failf("goroutine-leak", "goroutines left after shutdown:\n%s", l)
+	}
+}
+
 func TestC04(t *testing.T) {
 	s := explore.NewSuite(t, "C04", "exploration",
-		"controls {basic auth, deny-domains (include+exclude list), localhost denial, allowed time frame with the virtual clock inside/outside} x request kind(6: absolute-form, origin-form, CONNECT, inside a MITM'd tunnel, HTTP/1.0, POST with unusual header layout) x credential variant(22, incl. the right base64 text with letter case altered) x host spelling(17-19, incl. hosts-file aliases read by the oracle's own parser) x position on the connection(3); deviation-bounded exploration (D=2 quick, 3 thorough) plus the full products controls x kind x credentials and controls x kind x host; each execution compares the proxy's answer with the reference decision (first failing control in documented order) and proves from the in-memory network's dial log and byte counters that a refused request caused no connection and no byte upstream")
+		"controls {basic auth, deny-domains (include+exclude list), localhost denial, allowed time frame with the virtual clock inside/outside} x request kind(6: absolute-form, origin-form, CONNECT, inside a MITM'd tunnel, HTTP/1.0, POST with unusual header layout) x credential variant(22, incl. the right base64 text with letter case altered) x host spelling(17-19, incl. hosts-file aliases read by the oracle's own parser) x position on the connection(3); deviation-bounded exploration (D=2 quick, 3 thorough) plus the full products controls x kind x credentials and controls x kind x host; plus (time-frame-over-time) one proxy with frames sat/7-9, sat/22-24, sun/0-1 in 5 local time zones (UTC, +05:30, +05:45, -03:30, +13:00) and EVERY increasing sequence of 1-2 (quick) / 1-3 (thorough) request instants out of 16 placed 1 s around every frame boundary, midnight and the UTC hour boundaries of the fractional zones, each request decided by a reference from local weekday/hour; each execution compares the proxy's answer with the reference decision (first failing control in documented order) and proves from the in-memory network's dial log and byte counters that a refused request caused no connection and no byte upstream")
 	s.Assume = []string{"simnet owns every dial of the proxy (listen/dial seams)", "deny-domains semantics on host case are those of the configured regular expressions (C17)", "TZ=UTC"}
 	s.Add(explore.Scenario{Name: "bounded", Remote: true, MaxDev: map[string]int{"quick": 2, "thorough": 3},
 		Run: func(x *explore.X) { world.Run(t, x, func() { scenario(x, 0) }) }})
@@ -487,5 +591,9 @@ func TestC04(t *testing.T) {
 		Run: func(x *explore.X) { world.Run(t, x, func() { scenario(x, 1) }) }})
 	s.Add(explore.Scenario{Name: "controls-x-kind-x-host", Remote: true, MaxDev: map[string]int{"quick": 0, "thorough": 1},
 		Run: func(x *explore.X) { world.Run(t, x, func() { scenario(x, 2) }) }})
+	s.Add(explore.Scenario{Name: "time-frame-over-time-quick", Remote: true, Tiers: []string{"quick"},
+		Run: func(x *explore.X) { world.Run(t, x, func() { timeFrameScenario(x, 2) }) }})
+	s.Add(explore.Scenario{Name: "time-frame-over-time-thorough", Remote: true, Tiers: []string{"thorough"},
+		Run: func(x *explore.X) { world.Run(t, x, func() { timeFrameScenario(x, 3) }) }})
 	s.Main()
 }
